@@ -245,6 +245,63 @@ def _ground_attempt(ob, axioms, timeout_ms):
     return s.check() == z3.unsat
 
 
+_GEN_NAME = None
+
+
+def _const_names(t):
+    acc, seen, todo = set(), set(), [t]
+    while todo:
+        x = todo.pop()
+        i = x.get_id()
+        if i in seen:
+            continue
+        seen.add(i)
+        if z3.is_quantifier(x):
+            todo.append(x.body())
+        elif z3.is_app(x):
+            if x.num_args() == 0:
+                acc.add(x.decl().name())
+            else:
+                todo.extend(x.children())
+    return acc
+
+
+def _current_generation_attempt(ob, axioms, timeout_ms):
+    """Loop cutting leaves the facts about superseded values of loop-carried variables
+    (`lp_<name>!k` with a newer `lp_<name>!k'` present) in the path condition.  Retry without
+    the *quantified* hypotheses that mention such a superseded value, E-matching only.
+    Dropping hypotheses is sound for `proved`; any other answer is ignored."""
+    import re
+    pat = re.compile(r'^(lp_.+)!(\d+)$')
+    per_hyp = [(h, _const_names(h)) for h in ob.hyps]
+    newest = {}
+    for names in [n for _, n in per_hyp] + [_const_names(ob.goal)]:
+        for nm in names:
+            m = pat.match(nm)
+            if m:
+                newest[m.group(1)] = max(newest.get(m.group(1), -1), int(m.group(2)))
+    dead = set()
+    for _, names in per_hyp:
+        for nm in names:
+            m = pat.match(nm)
+            if m and int(m.group(2)) < newest[m.group(1)]:
+                dead.add(nm)
+    if not dead:
+        return False
+    hyps = [h for h, names in per_hyp if not (names & dead and _has_quantifier(h, set()))]
+    if len(hyps) == len(ob.hyps):
+        return False
+    s = z3.Solver()
+    s.set('timeout', int(timeout_ms))
+    s.set('mbqi', False)
+    for a in axioms:
+        s.add(a)
+    for h in hyps:
+        s.add(h)
+    s.add(z3.Not(ob.goal))
+    return s.check() == z3.unsat
+
+
 def solve_one(ob, axioms, timeout_ms=None, want_model=True):
     """portfolio: z3 default, cvc5, then z3 MBQI-only / E-matching-only / other seed.
     proved = some back end says unsat; refuted = some back end produces a model;
@@ -276,6 +333,11 @@ def solve_one(ob, axioms, timeout_ms=None, want_model=True):
             try:
                 if _ground_attempt(ob, axioms, min(3000, max(500, timeout_ms * 0.2))):
                     return 'proved', 'z3(ground-hyps)', time.time() - t0, None, None
+            except z3.Z3Exception:
+                pass
+            try:
+                if _current_generation_attempt(ob, axioms, max(500, timeout_ms * 0.25)):
+                    return 'proved', 'z3(ematch, current-generation hyps)', time.time() - t0, None, None
             except z3.Z3Exception:
                 pass
             try:
@@ -330,6 +392,119 @@ def model_summary(model, ctx, limit=40):
     return out
 
 
+def _name_of(k, ranks):
+    from .values import _LITERALS
+    for text, term in _LITERALS.items():
+        pass
+    return ranks.get(k, f"n{k}")
+
+
+def concretize(model, v, depth=0, names=None):
+    """python value of a symbolic value under a z3 model (best effort; None if not representable)"""
+    ty = v.ty
+    k = ty[0]
+    ev = lambda t: model.eval(t, model_completion=True)
+    try:
+        if k == 'int':
+            return ev(v.term).as_long()
+        if k == 'name':
+            n = ev(v.term).as_long()
+            if names is not None:
+                names.add(n)
+            return ('__name__', n)
+        if k == 'bool':
+            return z3.is_true(ev(v.term))
+        if k == 'real':
+            r = ev(v.term)
+            if z3.is_rational_value(r):
+                return float(r.numerator_as_long()) / float(r.denominator_as_long())
+            return float(r.approx(10).as_decimal(10).rstrip('?'))
+        if k == 'none':
+            return None
+        if k == 'opt':
+            if z3.is_true(ev(T.opt_is_none(ty, v.term))):
+                return None
+            return concretize(model, SymVal(ty[1], T.acc(ty, 'val')(v.term)), depth + 1, names)
+        if k in ('list', 'arr'):
+            n = ev(T.acc(ty, 'len')(v.term)).as_long()
+            if n < 0 or n > 40:
+                return None
+            at = T.acc(ty, 'at')(v.term)
+            out = [concretize(model, SymVal(ty[1], at[i]), depth + 1, names) for i in range(n)]
+            return ('__arr__', out) if k == 'arr' else out
+        if k == 'tuple':
+            return tuple(concretize(model, SymVal(t, T.acc(ty, f'f{i}')(v.term)), depth + 1, names)
+                         for i, t in enumerate(ty[1]))
+        if k == 'rec':
+            flds = T.RECORDS[ty[1]]
+            if '__rest__' in flds:
+                return None
+            return ('__rec__', {f: concretize(model, SymVal(ft, T.acc(ty, f)(v.term)), depth + 1, names)
+                                for f, ft in flds.items()})
+    except Exception:
+        return None
+    return None
+
+
+def _materialise(x, name_map):
+    """second pass: names become strings that preserve the model's order, arrays numpy arrays"""
+    from .native import Rec
+    if isinstance(x, tuple) and len(x) == 2 and x[0] == '__name__':
+        return name_map[x[1]]
+    if isinstance(x, tuple) and len(x) == 2 and x[0] == '__arr__':
+        import numpy as np
+        vals = [_materialise(e, name_map) for e in x[1]]
+        return np.array(vals)
+    if isinstance(x, tuple) and len(x) == 2 and x[0] == '__rec__':
+        return Rec(**{k: _materialise(e, name_map) for k, e in x[1].items()})
+    if isinstance(x, list):
+        return [_materialise(e, name_map) for e in x]
+    if isinstance(x, tuple):
+        return tuple(_materialise(e, name_map) for e in x)
+    return x
+
+
+def replay_model(c, ctx, model):
+    """turn the counter-model into arguments of the REAL function and run the contract natively.
+    returns dict(args=..., status=..., failures=[...]) or None when the inputs cannot be built"""
+    from . import native
+    from .values import _LITERALS
+    if model is None or ctx is None or c.self_type:
+        return None
+    names = set()
+    raw = {}
+    for p in c.params:
+        ref = ctx.entry.env.get(p)
+        if ref is None:
+            return None
+        v = ctx.entry.cells.get(ref.cid)
+        if v is None:
+            return None
+        val = concretize(model, v, names=names)
+        if val is None and v.ty != T.NONE and v.ty[0] != 'opt':
+            return None
+        raw[p] = val
+    # order-preserving naming; literals keep their text when the model gives them that value
+    lit_vals = {}
+    for text, term in _LITERALS.items():
+        try:
+            lit_vals[model.eval(term, model_completion=True).as_long()] = text
+        except Exception:
+            pass
+    name_map = {}
+    for rank, n in enumerate(sorted(names)):
+        name_map[n] = lit_vals.get(n, f"n{rank:03d}")
+    try:
+        args = {p: _materialise(x, name_map) for p, x in raw.items()}
+        fn = (c.native or {}).get('call') or native.resolve(c.qualname.split('#')[0])
+        status, failures = native.run_case(c, fn, args, list(c.params), (c.native or {}).get('env'))
+    except BaseException as e:      # noqa
+        return dict(args=native.safe_repr(raw, 1500), status='replay-error',
+                    failures=[], note=f"{type(e).__name__}: {e}")
+    return dict(args=native.safe_repr(args, 1500), status=status,
+                failures=[f.to_dict() for f in failures][:3])
+
+
 def verify_function(c, registry=REGISTRY, timeout_ms=None):
     res = FunctionResult(c.qualname)
     res.mode = c.mode
@@ -367,5 +542,11 @@ def verify_function(c, registry=REGISTRY, timeout_ms=None):
         res.obligations.append(dict(id=ob.id, kind=ob.kind, text=ob.text, line=ob.lineno, src=ob.src,
                                     verdict=verdict, backend=backend, time_s=round(dt, 4),
                                     model=model_summary(model, ctx), reason=reason))
+        if verdict == 'refuted' and model is not None and c.mode == 'full' and \
+                not any(o.get('replay') for o in res.obligations):
+            try:
+                res.obligations[-1]['replay'] = replay_model(c, ctx, model)
+            except BaseException as e:   # noqa
+                res.obligations[-1]['replay'] = dict(status='replay-error', note=str(e)[:200], failures=[])
     res.solve_time_s = time.time() - t1
     return res, ctx
